@@ -349,8 +349,12 @@ Fixpoint ranges_of (code : N) (i : nat) (its : list item) : list (nat * nat) :=
                ++ ranges_of code (i + length (enc_item it)) r
   end.
 Definition drop_code (code : N) (its : list item) : list item := filter (fun it => negb (is_code code it)) its.
-(* a well-formed options area: pads and complete options, then END, then anything *)
-Definition wf_pkt (hdr : bytes) (its : list item) (trail : bytes) : bytes := hdr ++ enc its ++ 255 :: trail.
+(* a decodable options area: pads and complete options in any order, then EITHER the end of the packet (no END
+   option: "missing END") OR END followed by arbitrary bytes *)
+Definition wf_pkt (hdr : bytes) (its : list item) (tl : bytes) : bytes := hdr ++ enc its ++ tl.
+Definition wf_tail (tl : bytes) : Prop := tl = [] \/ exists trail, tl = 255 :: trail.
+Definition tail_end (tl : bytes) : opt_end := match tl with [] => NoEnd | _ :: trail => EndSeen trail end.
+Definition endo_of (tl : bytes) (i : nat) : option nat := match tl with [] => None | _ => Some i end.
 
 Lemma enc_cons : forall it r, enc (it :: r) = enc_item it ++ enc r. Proof. reflexivity. Qed.
 Lemma enc_app : forall a b, enc (a ++ b) = enc a ++ enc b.
@@ -487,42 +491,48 @@ Qed.
 Lemma opts_of_app : forall a b, opts_of (a ++ b) = opts_of a ++ opts_of b.
 Proof. induction a as [|[|c d] r IH]; intros b; cbn [app opts_of]; rewrite ?IH; reflexivity. Qed.
 
-Lemma scan_wf : forall code hdr its trail, length hdr = 240%nat -> Forall item_ok its ->
-  scan_opts code (S (length (wf_pkt hdr its trail))) opt_start (skipn opt_start (wf_pkt hdr its trail)) [] =
-  Ok (Some (240 + length (enc its))%nat, ranges_of code 240 its).
+Lemma scan_wf : forall code hdr its tl, length hdr = 240%nat -> Forall item_ok its -> wf_tail tl ->
+  scan_opts code (S (length (wf_pkt hdr its tl))) opt_start (skipn opt_start (wf_pkt hdr its tl)) [] =
+  Ok (endo_of tl (240 + length (enc its))%nat, ranges_of code 240 its).
 Proof.
-  intros code hdr its trail Lh Hok. unfold wf_pkt, opt_start. rewrite skipn_exact by assumption.
+  intros code hdr its tl Lh Hok Htl. unfold wf_pkt, opt_start. rewrite skipn_exact by assumption.
   pose proof (enc_length_ge its) as Hge.
-  set (P := hdr ++ enc its ++ 255 :: trail).
+  set (P := hdr ++ enc its ++ tl).
   replace (S (length P)) with (length its + S (length P - length its))%nat
     by (subst P; rewrite !app_length; lia).
-  rewrite scan_opts_enc by assumption. cbn [scan_opts app]. reflexivity.
+  rewrite scan_opts_enc by assumption. destruct Htl as [->|[trail ->]]; cbn [scan_opts app endo_of]; reflexivity.
 Qed.
-Lemma wf_pkt_len : forall hdr its trail, length hdr = 240%nat -> (length (wf_pkt hdr its trail) <? opt_start)%nat = false.
+Lemma end_idx_eq : forall hdr its tl, length hdr = 240%nat -> wf_tail tl ->
+  match endo_of tl (240 + length (enc its))%nat with Some e => e | None => length (wf_pkt hdr its tl) end
+  = (240 + length (enc its))%nat.
+Proof.
+  intros hdr its tl Lh [->|[trail ->]]; cbn [endo_of]; [|reflexivity]. unfold wf_pkt. rewrite !app_length, Lh. cbn [length]. lia.
+Qed.
+Lemma wf_pkt_len : forall hdr its tl, length hdr = 240%nat -> (length (wf_pkt hdr its tl) <? opt_start)%nat = false.
 Proof. intros. unfold wf_pkt, opt_start. rewrite app_length. apply Nat.ltb_ge. lia. Qed.
 
-Definition replaced82 (hdr : bytes) (its : list item) (o82 trail : bytes) : bytes :=
-  hdr ++ enc (drop_code 82 its) ++ o82 ++ 255 :: trail.
+Definition replaced82 (hdr : bytes) (its : list item) (o82 tl : bytes) : bytes :=
+  hdr ++ enc (drop_code 82 its) ++ o82 ++ tl.
 
-Lemma insert_option82_repaired : forall hdr its trail o82 pol, length hdr = 240%nat -> Forall item_ok its ->
-  insert_option82 Repaired (wf_pkt hdr its trail) o82 pol =
+Lemma insert_option82_repaired : forall hdr its tl o82 pol, length hdr = 240%nat -> Forall item_ok its -> wf_tail tl ->
+  insert_option82 Repaired (wf_pkt hdr its tl) o82 pol =
   Ok (match pol with
-      | Replace => replaced82 hdr its o82 trail
-      | Drop => wf_pkt hdr (drop_code 82 its) trail
-      | Keep => if existsb (is_code 82) its then wf_pkt hdr its trail else replaced82 hdr its o82 trail
+      | Replace => replaced82 hdr its o82 tl
+      | Drop => wf_pkt hdr (drop_code 82 its) tl
+      | Keep => if existsb (is_code 82) its then wf_pkt hdr its tl else replaced82 hdr its o82 tl
       end).
 Proof.
-  intros hdr its trail o82 pol Lh Hok. unfold insert_option82.
-  rewrite wf_pkt_len, scan_wf by assumption. cbn [rbind].
-  assert (Erm : remove_ranges (wf_pkt hdr its trail) (ranges_of 82 240 its) = wf_pkt hdr (drop_code 82 its) trail).
+  intros hdr its tl o82 pol Lh Hok Htl. unfold insert_option82.
+  rewrite wf_pkt_len, scan_wf by assumption. cbn [rbind]. rewrite end_idx_eq by assumption.
+  assert (Erm : remove_ranges (wf_pkt hdr its tl) (ranges_of 82 240 its) = wf_pkt hdr (drop_code 82 its) tl).
   { unfold wf_pkt. rewrite <- Lh. apply remove_ranges_enc. }
-  assert (Erep : insert_at (remove_ranges (wf_pkt hdr its trail) (ranges_of 82 240 its))
-                           (240 + length (enc its) - removed_total (ranges_of 82 240 its)) o82 = replaced82 hdr its o82 trail).
+  assert (Erep : insert_at (remove_ranges (wf_pkt hdr its tl) (ranges_of 82 240 its))
+                           (240 + length (enc its) - removed_total (ranges_of 82 240 its)) o82 = replaced82 hdr its o82 tl).
   { rewrite Erm. pose proof (removed_total_enc 82 its 240) as Hrt.
     replace (240 + length (enc its) - removed_total (ranges_of 82 240 its))%nat with (length (hdr ++ enc (drop_code 82 its)))
       by (rewrite app_length; lia).
     unfold insert_at, wf_pkt, replaced82.
-    replace (hdr ++ enc (drop_code 82 its) ++ 255 :: trail) with ((hdr ++ enc (drop_code 82 its)) ++ 255 :: trail)
+    replace (hdr ++ enc (drop_code 82 its) ++ tl) with ((hdr ++ enc (drop_code 82 its)) ++ tl)
       by (rewrite <- app_assoc; reflexivity).
     rewrite firstn_exact, skipn_exact by reflexivity.
     rewrite <- !app_assoc. reflexivity. }
@@ -536,39 +546,40 @@ Proof.
   - rewrite Erep. reflexivity.
 Qed.
 
-Lemma strip_option82_repaired : forall hdr its trail, length hdr = 240%nat -> Forall item_ok its ->
-  strip_option82 Repaired (wf_pkt hdr its trail) = Ok (wf_pkt hdr (drop_code 82 its) trail).
+Lemma strip_option82_repaired : forall hdr its tl, length hdr = 240%nat -> Forall item_ok its -> wf_tail tl ->
+  strip_option82 Repaired (wf_pkt hdr its tl) = Ok (wf_pkt hdr (drop_code 82 its) tl).
 Proof.
-  intros hdr its trail Lh Hok. unfold strip_option82. rewrite wf_pkt_len, scan_wf by assumption. cbn [rbind].
+  intros hdr its tl Lh Hok Htl. unfold strip_option82. rewrite wf_pkt_len, scan_wf by assumption. cbn [rbind].
   unfold wf_pkt. rewrite <- Lh. rewrite remove_ranges_enc. reflexivity.
 Qed.
 
 (* decoding a well-formed packet with the reference decoder *)
-Lemma ref_options_wf : forall hdr its trail, length hdr = 240%nat -> Forall item_ok its ->
-  ref_options (wf_pkt hdr its trail) = (opts_of its, EndSeen trail).
+Lemma ref_options_wf : forall hdr its tl, length hdr = 240%nat -> Forall item_ok its -> wf_tail tl ->
+  ref_options (wf_pkt hdr its tl) = (opts_of its, tail_end tl).
 Proof.
-  intros hdr its trail Lh Hok. unfold ref_options, wf_pkt, opt_start. rewrite skipn_exact by assumption.
+  intros hdr its tl Lh Hok Htl. unfold ref_options, wf_pkt, opt_start. rewrite skipn_exact by assumption.
   pose proof (enc_length_ge its) as Hge.
-  set (P := hdr ++ enc its ++ 255 :: trail).
+  set (P := hdr ++ enc its ++ tl).
   replace (S (length P)) with (length its + S (length P - length its))%nat
     by (subst P; rewrite !app_length; lia).
-  rewrite ref_walk_enc by assumption. cbn [ref_walk fst snd]. change (255 =? 0) with false. change (255 =? 255) with true.
-  cbn iota. cbn [fst snd]. rewrite app_nil_r. reflexivity.
+  rewrite ref_walk_enc by assumption. destruct Htl as [->|[trail ->]]; cbn [ref_walk fst snd tail_end].
+  - rewrite app_nil_r. reflexivity.
+  - change (255 =? 0) with false. change (255 =? 255) with true. cbn iota. cbn [fst snd]. rewrite app_nil_r. reflexivity.
 Qed.
 
 Definition not_code (code : N) (o : N * bytes) : bool := negb (fst o =? code).
 
-Lemma opt82_replace_faithful : forall hdr its trail d, length hdr = 240%nat -> Forall item_ok its -> (length d <= 255)%nat ->
-  exists out, insert_option82 Repaired (wf_pkt hdr its trail) (82 :: blen d :: d) Replace = Ok out /\
+Lemma opt82_replace_faithful : forall hdr its tl d, length hdr = 240%nat -> Forall item_ok its -> wf_tail tl -> (length d <= 255)%nat ->
+  exists out, insert_option82 Repaired (wf_pkt hdr its tl) (82 :: blen d :: d) Replace = Ok out /\
     firstn 240 out = hdr /\
-    ref_options out = (filter (not_code 82) (opts_of its) ++ [(82, d)], EndSeen trail).
+    ref_options out = (filter (not_code 82) (opts_of its) ++ [(82, d)], tail_end tl).
 Proof.
-  intros hdr its trail d Lh Hok Hd. rewrite insert_option82_repaired by assumption. eexists. split; [reflexivity|].
+  intros hdr its tl d Lh Hok Htl Hd. rewrite insert_option82_repaired by assumption. eexists. split; [reflexivity|].
   unfold replaced82. split; [apply firstn_exact; assumption|].
   replace (82 :: blen d :: d) with (enc [Opt 82 d]) by (unfold enc; cbn [map concat enc_item]; apply app_nil_r).
-  replace (hdr ++ enc (drop_code 82 its) ++ enc [Opt 82 d] ++ 255 :: trail) with (wf_pkt hdr (drop_code 82 its ++ [Opt 82 d]) trail)
+  replace (hdr ++ enc (drop_code 82 its) ++ enc [Opt 82 d] ++ tl) with (wf_pkt hdr (drop_code 82 its ++ [Opt 82 d]) tl)
     by (unfold wf_pkt; rewrite enc_app, <- !app_assoc; reflexivity).
-  rewrite ref_options_wf; [|assumption|].
+  rewrite ref_options_wf; [|assumption| |assumption].
   - rewrite opts_of_app, opts_of_drop. reflexivity.
   - apply Forall_app. split; [apply drop_code_ok; assumption|]. constructor; [|constructor]. cbn [item_ok]. repeat split; [lia|lia|exact Hd].
 Qed.
@@ -576,17 +587,21 @@ Qed.
 (* ================================================================== SetOption / RewriteForProxy *)
 Definition has_code (code : N) (o : N * bytes) : bool := fst o =? code.
 
-Lemma insert_option_wf : forall hdr its trail code data, length hdr = 240%nat -> Forall item_ok its ->
-  insert_option (wf_pkt hdr its trail) code data = Ok (hdr ++ enc its ++ (code :: blen data mod 256 :: data) ++ 255 :: trail).
+Lemma insert_option_wf : forall hdr its tl code data, length hdr = 240%nat -> Forall item_ok its -> wf_tail tl ->
+  insert_option (wf_pkt hdr its tl) code data = Ok (hdr ++ enc its ++ (code :: blen data mod 256 :: data) ++ tl).
 Proof.
-  intros hdr its trail code data Lh Hok. unfold insert_option. rewrite wf_pkt_len by assumption.
+  intros hdr its tl code data Lh Hok Htl. unfold insert_option. rewrite wf_pkt_len by assumption.
   unfold wf_pkt, opt_start. rewrite skipn_exact by assumption.
   pose proof (enc_length_ge its) as Hge.
-  set (P := hdr ++ enc its ++ 255 :: trail).
+  set (P := hdr ++ enc its ++ tl).
   replace (S (length P)) with (length its + S (length P - length its))%nat by (subst P; rewrite !app_length; lia).
-  rewrite end_loop_enc by assumption. cbn [end_loop]. change (255 =? 0) with false. change (255 =? 255) with true. cbn iota. cbn [rbind].
-  subst P. unfold insert_at.
-  replace (hdr ++ enc its ++ 255 :: trail) with ((hdr ++ enc its) ++ 255 :: trail) by (rewrite <- app_assoc; reflexivity).
+  rewrite end_loop_enc by assumption.
+  assert (Ee : end_loop (S (length P - length its)) (opt_start + length (enc its)) tl = Ok (endo_of tl (240 + length (enc its))%nat))
+    by (destruct Htl as [->|[trail ->]]; reflexivity).
+  unfold opt_start in Ee. rewrite Ee. cbn [rbind]. subst P.
+  change (length (hdr ++ enc its ++ tl)) with (length (wf_pkt hdr its tl)). rewrite end_idx_eq by assumption.
+  unfold insert_at.
+  replace (hdr ++ enc its ++ tl) with ((hdr ++ enc its) ++ tl) by (rewrite <- app_assoc; reflexivity).
   rewrite firstn_exact, skipn_exact by (rewrite app_length; lia). rewrite <- !app_assoc. reflexivity.
 Qed.
 
@@ -623,17 +638,17 @@ Qed.
 
 (* Result of SetOptionUint32/SetOptionIP on a well-formed packet: again a well-formed packet with the same fixed
    header and trailer whose decoded options are the old ones without [code], plus exactly one (code, val4). *)
-Definition set_result (hdr : bytes) (its : list item) (trail : bytes) (code : N) (val4 : bytes) (out : bytes) : Prop :=
-  exists its', out = wf_pkt hdr its' trail /\ Forall item_ok its' /\ filter (not_code code) (opts_of its') = filter (not_code code) (opts_of its) /\ filter (has_code code) (opts_of its') = [(code, val4)].
+Definition set_result (hdr : bytes) (its : list item) (tl : bytes) (code : N) (val4 : bytes) (out : bytes) : Prop :=
+  exists its', out = wf_pkt hdr its' tl /\ Forall item_ok its' /\ filter (not_code code) (opts_of its') = filter (not_code code) (opts_of its) /\ filter (has_code code) (opts_of its') = [(code, val4)].
 
-Lemma set_option4_repaired : forall hdr its trail code val4, length hdr = 240%nat -> Forall item_ok its ->
+Lemma set_option4_repaired : forall hdr its tl code val4, length hdr = 240%nat -> Forall item_ok its -> wf_tail tl ->
   code <> 0 -> code <> 255 -> length val4 = 4%nat ->
-  exists out, set_option4 Repaired (wf_pkt hdr its trail) code val4 = Ok out /\ set_result hdr its trail code val4 out.
+  exists out, set_option4 Repaired (wf_pkt hdr its tl) code val4 = Ok out /\ set_result hdr its tl code val4 out.
 Proof.
-  intros hdr its trail code val4 Lh Hok H0 H255 Lv. unfold set_option4.
+  intros hdr its tl code val4 Lh Hok Htl H0 H255 Lv. unfold set_option4.
   rewrite wf_pkt_len, scan_wf by assumption. cbn [rbind].
-  assert (Hins : exists out, insert_option (remove_ranges (wf_pkt hdr its trail) (ranges_of code 240 its)) code val4 = Ok out /\                           set_result hdr its trail code val4 out).
-  { assert (Erm : remove_ranges (wf_pkt hdr its trail) (ranges_of code 240 its) = wf_pkt hdr (drop_code code its) trail)
+  assert (Hins : exists out, insert_option (remove_ranges (wf_pkt hdr its tl) (ranges_of code 240 its)) code val4 = Ok out /\                           set_result hdr its tl code val4 out).
+  { assert (Erm : remove_ranges (wf_pkt hdr its tl) (ranges_of code 240 its) = wf_pkt hdr (drop_code code its) tl)
       by (unfold wf_pkt; rewrite <- Lh; apply remove_ranges_enc).
     rewrite Erm, insert_option_wf by (try assumption; apply drop_code_ok; assumption).
     eexists. split; [reflexivity|]. exists (drop_code code its ++ [Opt code val4]).
@@ -655,8 +670,8 @@ Proof.
   split; [|split; [|split]].
   - unfold overwrite, wf_pkt. rewrite !enc_app, !enc_cons. cbn [enc_item]. rewrite Lv.
     assert (Eb : blen d = blen val4) by (unfold blen; rewrite Ld, Lv; reflexivity).
-    replace (hdr ++ (enc its1 ++ (code :: blen d :: d) ++ enc its2) ++ 255 :: trail)
-      with ((hdr ++ enc its1 ++ [code; blen d]) ++ d ++ enc its2 ++ 255 :: trail) by (rewrite <- !app_assoc; reflexivity).
+    replace (hdr ++ (enc its1 ++ (code :: blen d :: d) ++ enc its2) ++ tl)
+      with ((hdr ++ enc its1 ++ [code; blen d]) ++ d ++ enc its2 ++ tl) by (rewrite <- !app_assoc; reflexivity).
     rewrite firstn_exact by (rewrite !app_length; cbn [length]; lia).
     replace (240 + length (enc its1) + 2 + 4)%nat with (length (hdr ++ enc its1 ++ [code; blen d]) + length d)%nat
       by (rewrite !app_length; cbn [length]; lia).
@@ -677,13 +692,13 @@ Proof.
   destruct (f o) eqn:Ef; cbn [filter]; [rewrite IH; reflexivity|].
   destruct (g o) eqn:Eg; [rewrite (H o Eg) in Ef; discriminate|exact IH].
 Qed.
-Lemma set_result_other : forall hdr its trail code val4 out (g : N * bytes -> bool),
-  set_result hdr its trail code val4 out -> (forall o, g o = true -> not_code code o = true) ->
-  exists its', out = wf_pkt hdr its' trail /\ Forall item_ok its' /\
+Lemma set_result_other : forall hdr its tl code val4 out (g : N * bytes -> bool),
+  set_result hdr its tl code val4 out -> (forall o, g o = true -> not_code code o = true) ->
+  exists its', out = wf_pkt hdr its' tl /\ Forall item_ok its' /\
     filter (has_code code) (opts_of its') = [(code, val4)] /\
     filter g (opts_of its') = filter g (opts_of its).
 Proof.
-  intros hdr its trail code val4 out g [its' [E [Hok [Hn Hh]]]] Hg. exists its'. repeat split; try assumption.
+  intros hdr its tl code val4 out g [its' [E [Hok [Hn Hh]]]] Hg. exists its'. repeat split; try assumption.
   rewrite <- (filter_filter_imp g (not_code code) (opts_of its')) by assumption.
   rewrite <- (filter_filter_imp g (not_code code) (opts_of its)) by assumption. rewrite Hn. reflexivity.
 Qed.
@@ -703,30 +718,30 @@ Qed.
 Definition proxy_other (o : N * bytes) : bool :=
   not_code 54 o && not_code 51 o && not_code 58 o && not_code 59 o.
 
-Lemma rewrite_for_proxy_repaired : forall hdr its trail sid ip4 lease, length hdr = 240%nat -> Forall item_ok its ->
+Lemma rewrite_for_proxy_repaired : forall hdr its tl sid ip4 lease, length hdr = 240%nat -> Forall item_ok its -> wf_tail tl ->
   to4 sid = Some ip4 ->
-  exists out its', rewrite_for_proxy Repaired (wf_pkt hdr its trail) sid lease = Ok out /\
-    out = wf_pkt hdr its' trail /\ Forall item_ok its' /\
+  exists out its', rewrite_for_proxy Repaired (wf_pkt hdr its tl) sid lease = Ok out /\
+    out = wf_pkt hdr its' tl /\ Forall item_ok its' /\
     filter (has_code 54) (opts_of its') = [(54, ip4)] /\
     filter (has_code 51) (opts_of its') = [(51, put32 lease)] /\
     filter (has_code 58) (opts_of its') = [(58, put32 (lease / 2))] /\
     filter (has_code 59) (opts_of its') = [(59, put32 (lease * 7 / 8))] /\
     filter proxy_other (opts_of its') = filter proxy_other (opts_of its).
 Proof.
-  intros hdr its trail sid ip4 lease Lh Hok Hsid. pose proof (to4_length _ _ Hsid) as L4.
+  intros hdr its tl sid ip4 lease Lh Hok Htl Hsid. pose proof (to4_length _ _ Hsid) as L4.
   assert (Hpo : forall c o, (c = 54 \/ c = 51 \/ c = 58 \/ c = 59) -> proxy_other o = true -> not_code c o = true).
   { intros c o Hc H. unfold proxy_other in H. repeat (apply andb_true_iff in H; destruct H as [H ?]).
     destruct Hc as [->|[->|[->| ->]]]; assumption. }
   unfold rewrite_for_proxy, set_option_ip, set_option_u32, t2_of. rewrite Hsid.
-  destruct (set_option4_repaired hdr its trail 54 ip4 Lh Hok ltac:(lia) ltac:(lia) L4) as [o1 [E1 R1]]. rewrite E1. cbn [rbind].
+  destruct (set_option4_repaired hdr its tl 54 ip4 Lh Hok Htl ltac:(lia) ltac:(lia) L4) as [o1 [E1 R1]]. rewrite E1. cbn [rbind].
   destruct R1 as [i1 [-> [K1 [N1 H1]]]].
-  destruct (set_option4_repaired hdr i1 trail 51 (put32 lease) Lh K1 ltac:(lia) ltac:(lia) eq_refl) as [o2 [E2 R2]]. rewrite E2. cbn [rbind].
+  destruct (set_option4_repaired hdr i1 tl 51 (put32 lease) Lh K1 Htl ltac:(lia) ltac:(lia) eq_refl) as [o2 [E2 R2]]. rewrite E2. cbn [rbind].
   destruct R2 as [i2 [-> [K2 [N2 H2]]]].
-  destruct (set_option4_repaired hdr i2 trail 58 (put32 (lease / 2)) Lh K2 ltac:(lia) ltac:(lia) eq_refl) as [o3 [E3 R3]]. rewrite E3. cbn [rbind].
+  destruct (set_option4_repaired hdr i2 tl 58 (put32 (lease / 2)) Lh K2 Htl ltac:(lia) ltac:(lia) eq_refl) as [o3 [E3 R3]]. rewrite E3. cbn [rbind].
   destruct R3 as [i3 [-> [K3 [N3 H3]]]].
-  destruct (set_option4_repaired hdr i3 trail 59 (put32 (lease * 7 / 8)) Lh K3 ltac:(lia) ltac:(lia) eq_refl) as [o4 [E4 R4]].
+  destruct (set_option4_repaired hdr i3 tl 59 (put32 (lease * 7 / 8)) Lh K3 Htl ltac:(lia) ltac:(lia) eq_refl) as [o4 [E4 R4]].
   destruct R4 as [i4 [-> [K4 [N4 H4]]]].
-  exists (wf_pkt hdr i4 trail), i4. split; [exact E4|]. split; [reflexivity|]. split; [exact K4|].
+  exists (wf_pkt hdr i4 tl), i4. split; [exact E4|]. split; [reflexivity|]. split; [exact K4|].
   (* transport each filter through the later rewrites *)
   assert (T : forall (g : N * bytes -> bool) a b c, (forall o, g o = true -> not_code c o = true) ->
               filter (not_code c) (opts_of a) = filter (not_code c) (opts_of b) -> filter g (opts_of a) = filter g (opts_of b)).
@@ -1014,11 +1029,11 @@ Proof.
   unfold build_dhcp4_reply. destruct (Nat.ltb_spec 212 (length hw)); [lia|].
   assert (Ep : [2; 1; 6; 0] ++ put32 xid ++ zeros 4 ++ ip4_field ci ++ ip4_field yi ++ ip4_field si ++ zeros 4 ++
                firstn 208 (hw ++ zeros 208) ++ magic ++ add_opt Repaired 53 [mt mod 256] ++ write_opts Repaired opts ++ [255]
-               = wf_pkt (reply_hdr xid ci yi si hw) (reply_items mt opts) []).
+               = wf_pkt (reply_hdr xid ci yi si hw) (reply_items mt opts) [255]).
   { unfold wf_pkt, reply_hdr. rewrite <- E. unfold write_opts. cbn [map concat fst snd]. rewrite <- !app_assoc. reflexivity. }
   rewrite Ep. pose proof (reply_hdr_length xid ci yi si hw) as LH.
   eexists. eexists. split; [reflexivity|]. unfold ref_decode4. rewrite wf_pkt_len by assumption.
-  rewrite ref_options_wf by assumption. split; [reflexivity|]. cbn [v_op v_xid v_yiaddr v_ciaddr v_chaddr v_cookie_ok v_end v_opts].
+  rewrite ref_options_wf by (try assumption; right; eexists; reflexivity). split; [reflexivity|]. cbn [v_op v_xid v_yiaddr v_ciaddr v_chaddr v_cookie_ok v_end v_opts].
   set (tail := enc (reply_items mt opts) ++ [255]).
   assert (Fl : forall ip, length (ip4_field ip) = 4%nat) by (intros; apply field_length).
   split; [reflexivity|]. split; [|split; [|split; [|split; [|split; [|split; [|split]]]]]].
@@ -1067,3 +1082,686 @@ Proof. unfold ex_server. repeat (constructor; [cbn [item_ok length]; try exact I
 Lemma t1_le_t2 : forall x, x / 2 <= t2_of Repaired x /\ pref_t1 x <= pref_t2 Repaired x /\
                            t2_of Repaired x <= x /\ pref_t2 Repaired x <= x.
 Proof. intros x. unfold t2_of, pref_t1, pref_t2. repeat split; lia. Qed.
+
+(* ================================================================== domain: every decodable options area is a wf_pkt *)
+(* If the reference decoder does not report a truncated option, the bytes ARE pads/complete options followed by
+   end-of-packet or END+trailer: the wf_pkt theorems therefore cover every decodable client message. *)
+Lemma decodable_wf : forall fuel l os e, bytes_ok l -> ref_walk fuel l = (os, e) -> e <> Truncated ->
+  exists its tl, l = enc its ++ tl /\ Forall item_ok its /\ opts_of its = os /\ wf_tail tl /\ e = tail_end tl.
+Proof.
+  induction fuel as [|f IH]; intros l os e Hb Hw Hne; cbn [ref_walk] in Hw.
+  - inversion Hw; subst. contradiction.
+  - destruct l as [|c r].
+    + inversion Hw; subst. exists [], []. repeat split; try reflexivity; try apply Forall_nil. left; reflexivity.
+    + destruct (N.eqb_spec c 0) as [E0|E0].
+      * inversion Hb; subst. destruct (IH r os e) as [its [tl [E [Ok' [Eo [Ht Ee]]]]]]; try assumption.
+        exists (Pad :: its), tl. rewrite enc_cons. cbn [enc_item app opts_of]. subst r. repeat split; try assumption. constructor; [exact I|assumption].
+      * destruct (N.eqb_spec c 255) as [E255|E255].
+        { inversion Hw; subst. exists [], (255 :: r). repeat split; try reflexivity; try apply Forall_nil. right; eexists; reflexivity. }
+        destruct r as [|n r2]; [inversion Hw; subst; contradiction|].
+        destruct (Nat.ltb_spec (length r2) (N.to_nat n)) as [Hlt|Hge]; [inversion Hw; subst; contradiction|].
+        destruct (ref_walk f (skipn (N.to_nat n) r2)) as [os' e'] eqn:Er. inversion Hw; subst.
+        inversion Hb as [|? ? Hc Hb1]; subst. inversion Hb1 as [|? ? Hn Hb2]; subst. unfold byte in Hn.
+        assert (Hb3 : bytes_ok (skipn (N.to_nat n) r2)).
+        { apply Forall_forall. intros x Hx. eapply Forall_forall; [exact Hb2|]. rewrite <- (firstn_skipn (N.to_nat n) r2). apply in_or_app. auto. }
+        destruct (IH _ _ _ Hb3 Er Hne) as [its [tl [E [Ok' [Eo [Ht Ee]]]]]].
+        exists (Opt c (firstn (N.to_nat n) r2) :: its), tl.
+        assert (Lf : length (firstn (N.to_nat n) r2) = N.to_nat n) by (rewrite firstn_length; lia).
+        rewrite enc_cons. cbn [enc_item opts_of]. unfold blen. rewrite Lf, N2Nat.id. cbn [app]. rewrite <- app_assoc, <- E, firstn_skipn.
+        repeat split; try assumption; try (rewrite Eo; reflexivity). constructor; [|assumption]. cbn [item_ok]. repeat split; try assumption. lia.
+Qed.
+Lemma decodable_is_wf : forall pkt, bytes_ok pkt -> (240 <= length pkt)%nat -> snd (ref_options pkt) <> Truncated ->
+  exists hdr its tl, pkt = wf_pkt hdr its tl /\ length hdr = 240%nat /\ Forall item_ok its /\ wf_tail tl /\
+                     ref_options pkt = (opts_of its, tail_end tl).
+Proof.
+  intros pkt Hb Hl Hne. unfold ref_options in *. destruct (ref_walk (S (length pkt)) (skipn opt_start pkt)) as [os e] eqn:Ew.
+  cbn [snd] in Hne.
+  assert (Hb' : bytes_ok (skipn opt_start pkt)).
+  { apply Forall_forall. intros x Hx. eapply Forall_forall; [exact Hb|]. rewrite <- (firstn_skipn opt_start pkt). apply in_or_app. auto. }
+  destruct (decodable_wf _ _ _ _ Hb' Ew Hne) as [its [tl [E [Ok' [Eo [Ht Ee]]]]]].
+  exists (firstn opt_start pkt), its, tl. unfold wf_pkt. rewrite <- E, firstn_skipn. repeat split; try assumption.
+  - rewrite firstn_length. unfold opt_start. lia.
+  - subst. reflexivity.
+Qed.
+
+(* ================================================================== the other IPv4 framers: WrapIPUDP, BuildUDPPacket *)
+(* header fields are the requested ones: version/IHL 0x45, TTL 64, protocol 17, addresses, ports *)
+Definition frame4_fields (f s4 d4 : bytes) (sp dp : N) : Prop :=
+  firstn 2 f = [69; 0] /\ firstn 6 (skipn 4 f) = [0; 0; 0; 0; 64; 17] /\
+  firstn 4 (skipn 12 f) = s4 /\ firstn 4 (skipn 16 f) = d4 /\
+  firstn 2 (skipn 20 f) = put16 sp /\ firstn 2 (skipn 22 f) = put16 dp.
+
+Lemma frame4_assemble : forall s4 d4 sp dp payload hc uc,
+  length s4 = 4%nat -> length d4 = 4%nat -> sp < 65536 -> dp < 65536 -> blen payload <= 65507 ->
+  let ulen := 8 + blen payload in let total := 20 + ulen in
+  verifies (ip4_header total s4 d4 hc) = true -> uc < 65536 ->
+  ones_sum (sum_words s4 + sum_words d4 + 17 + ulen + (sp + dp + ulen + sum_words payload) + uc) = 65535 ->
+  let f := ip4_header total s4 d4 hc ++ udp_header sp dp ulen uc ++ payload in
+  frame4_ok f payload /\ frame4_fields f s4 d4 sp dp /\ firstn 2 (skipn 26 f) = put16 uc.
+Proof.
+  intros s4 d4 sp dp payload hc uc Ls Ld Hsp Hdp Hl ulen total Hhv Huc Hv f.
+  assert (Hul : ulen < 65536) by (subst ulen; lia).
+  subst f. cells4 s4 Ls. cells4 d4 Ld.
+  unfold frame4_ok, frame4_fields, pseudo4, ip4_header, udp_header, put16 in *. cbn [app firstn skipn length] in *.
+  split; [|split; [repeat split|reflexivity]].
+  split; [lia|]. split.
+  { unfold blen. cbn [length]. f_equal; [|f_equal]; f_equal; subst total ulen; unfold blen; lia. }
+  split.
+  { unfold blen. cbn [length]. f_equal; [|f_equal]; f_equal; subst total ulen; unfold blen; lia. }
+  split; [exact Hhv|]. split; [|reflexivity].
+  unfold verifies.
+  match goal with |- ones_sum (sum_words ?l) =? _ = true =>
+    change l with (([n; n0; n1; n2] ++ [n3; n4; n5; n6]) ++ [0; 17] ++ put16 ulen ++ (udp_header sp dp ulen uc ++ payload)) end.
+  rewrite sum_words_app by reflexivity. rewrite (sum_words_app [0; 17]) by reflexivity.
+  rewrite (sum_words_app (put16 ulen)) by reflexivity. rewrite (sum_words_app [n; n0; n1; n2]) by reflexivity.
+  rewrite put16_exact, udp_seg_sum by (try assumption; lia).
+  change (sum_words [0; 17]) with 17.
+  replace (sum_words [n; n0; n1; n2] + sum_words [n3; n4; n5; n6] + (17 + (ulen + (sp + dp + ulen + uc + sum_words payload))))
+    with (sum_words [n; n0; n1; n2] + sum_words [n3; n4; n5; n6] + 17 + ulen + (sp + dp + ulen + sum_words payload) + uc) by lia.
+  rewrite Hv. reflexivity.
+Qed.
+
+Lemma field4_id : forall ip b, to4 ip = Some b -> field 4 (to4 ip) = b.
+Proof.
+  intros ip b H. rewrite H. unfold field. pose proof (to4_length _ _ H) as L. apply firstn_exact. exact L.
+Qed.
+Lemma header_csum_exists : forall total s4 d4, length s4 = 4%nat -> length d4 = 4%nat -> bytes_ok s4 -> bytes_ok d4 ->
+  exists hc, csum_finish (sum_words (ip4_header total s4 d4 0)) = Ok hc.
+Proof.
+  intros total s4 d4 Ls Ld Bs Bd. destruct (ip4_pre_props total) as [Lp [Bpre Pp]].
+  destruct (csum_finish_total (sum_words (ip4_header total s4 d4 0))) as [c [Hc _]]; [| |eauto].
+  - rewrite ip4_header_split, field_csum by (try (rewrite Lp; reflexivity); lia). lia.
+  - rewrite ip4_header_split, field_csum by (try (rewrite Lp; reflexivity); lia).
+    pose proof (sum_words_bound _ Bpre) as B1. rewrite Lp in B1. change ((10 + 1) / 2)%nat with 5%nat in B1.
+    assert (B2 : bytes_ok (s4 ++ d4)) by (apply Forall_app; auto).
+    pose proof (sum_words_bound _ B2) as B3. rewrite app_length, Ls, Ld in B3. change ((4 + 4 + 1) / 2)%nat with 4%nat in B3. lia.
+Qed.
+
+(* the UDP checksum computed over "pseudo-header sum + all words of the datagram with a zero checksum field",
+   with the zero result replaced by 0xFFFF *)
+Lemma udp_csum_generic : forall s4 d4 sp dp payload s0,
+  length s4 = 4%nat -> length d4 = 4%nat -> bytes_ok s4 -> bytes_ok d4 -> bytes_ok payload ->
+  sp < 65536 -> dp < 65536 -> blen payload <= 65507 ->
+  s0 = sum_words s4 + sum_words d4 + 17 + (8 + blen payload) + (sp + dp + (8 + blen payload) + sum_words payload) ->
+  exists c, csum_finish s0 = Ok c /\
+    let uc := if c =? 0 then 65535 else c in uc < 65536 /\ uc <> 0 /\ ones_sum (s0 + uc) = 65535.
+Proof.
+  intros s4 d4 sp dp payload s0 Ls Ld Bs Bd Bp Hsp Hdp Hl ->.
+  pose proof (payload_sum_bound payload Bp ltac:(lia)) as Bpl.
+  pose proof (sum4_bound s4 Ls Bs) as B4s. pose proof (sum4_bound d4 Ld Bd) as B4d.
+  set (s0 := sum_words s4 + sum_words d4 + 17 + (8 + blen payload) + (sp + dp + (8 + blen payload) + sum_words payload)).
+  assert (Hs0 : 0 < s0 /\ s0 < 4294967296) by (subst s0; lia).
+  destruct (csum_finish_total s0) as [c [Hc Hc16]]; try tauto. exists c. split; [exact Hc|]. cbn zeta.
+  assert (Huc : (if c =? 0 then 65535 else c) = c \/ (c = 0 /\ ((if c =? 0 then 65535 else c) = 65535 \/ (if c =? 0 then 65535 else c) = 0)))
+    by (destruct (N.eqb_spec c 0); auto).
+  destruct (csum_verifies s0 c _ (proj1 Hs0) (proj2 Hs0) Hc Huc) as [_ Hv].
+  repeat split; try exact Hv; destruct (N.eqb_spec c 0); lia.
+Qed.
+
+Lemma wrap_ip_udp_ok : forall payload src dst s4 d4,
+  to4 src = Some s4 -> to4 dst = Some d4 -> ip_ok src -> ip_ok dst -> bytes_ok payload -> blen payload <= 65507 ->
+  exists f, wrap_ip_udp payload src dst = Ok f /\ frame4_ok f payload /\ frame4_fields f s4 d4 67 68 /\
+            firstn 2 (skipn 26 f) <> [0; 0].
+Proof.
+  intros payload src dst s4 d4 Hs Hd Os Od Bp Hl.
+  destruct (to4_some _ _ Hs Os) as [Ls Bs]. destruct (to4_some _ _ Hd Od) as [Ld Bd].
+  unfold wrap_ip_udp. rewrite (field4_id _ _ Hs), (field4_id _ _ Hd), Hs, Hd.
+  set (ulen := 8 + blen payload). set (total := 20 + ulen).
+  destruct (header_csum_exists total s4 d4 Ls Ld Bs Bd) as [hc Hhc]. rewrite Hhc. cbn [rbind].
+  destruct (ip4_header_verifies total s4 d4 hc hc Ls Ld Bs Bd Hhc eq_refl) as [Hhc16 Hhv].
+  assert (Ebl : blen (udp_header 67 68 ulen 0 ++ payload) = ulen).
+  { rewrite blen_app. subst ulen. unfold blen. cbn [udp_header put16 app length]. lia. }
+  rewrite Ebl, udp_seg_sum by (subst ulen; lia).
+  destruct (udp_csum_generic s4 d4 67 68 payload _ Ls Ld Bs Bd Bp ltac:(lia) ltac:(lia) Hl eq_refl) as [c [Hc [U1 [U2 U3]]]].
+  fold ulen in Hc, U3.
+  replace (sum_words s4 + sum_words d4 + 17 + ulen + (67 + 68 + ulen + 0 + sum_words payload))
+    with (sum_words s4 + sum_words d4 + 17 + ulen + (67 + 68 + ulen + sum_words payload)) by lia.
+  rewrite Hc. cbn [rbind]. eexists. split; [reflexivity|].
+  destruct (frame4_assemble s4 d4 67 68 payload hc (if c =? 0 then 65535 else c) Ls Ld ltac:(lia) ltac:(lia) Hl Hhv U1 U3) as [A [B C]].
+  split; [exact A|]. split; [exact B|]. subst total ulen. rewrite C.
+  unfold put16, byte_of. intros Hz. injection Hz as H1 H2. lia.
+Qed.
+
+Lemma build_udp_packet_ok : forall src dst sp dp payload s4 d4,
+  to4 src = Some s4 -> to4 dst = Some d4 -> ip_ok src -> ip_ok dst -> bytes_ok payload ->
+  sp < 65536 -> dp < 65536 -> blen payload <= 65507 ->
+  exists f, build_udp_packet src dst sp dp payload = Ok f /\ frame4_ok f payload /\ frame4_fields f s4 d4 sp dp /\
+            firstn 2 (skipn 26 f) <> [0; 0].
+Proof.
+  intros src dst sp dp payload s4 d4 Hs Hd Os Od Bp Hsp Hdp Hl.
+  destruct (to4_some _ _ Hs Os) as [Ls Bs]. destruct (to4_some _ _ Hd Od) as [Ld Bd].
+  unfold build_udp_packet. rewrite (field4_id _ _ Hs), (field4_id _ _ Hd).
+  set (ulen := 8 + blen payload). set (total := 20 + ulen).
+  assert (Hul : ulen < 65536) by (subst ulen; lia).
+  destruct (header_csum_exists total s4 d4 Ls Ld Bs Bd) as [hc Hhc]. rewrite Hhc. cbn [rbind].
+  destruct (ip4_header_verifies total s4 d4 hc hc Ls Ld Bs Bd Hhc eq_refl) as [Hhc16 Hhv].
+  assert (Es : sum_words ((s4 ++ d4 ++ [0; 17] ++ put16 ulen) ++ udp_header sp dp ulen 0 ++ payload)
+               = sum_words s4 + sum_words d4 + 17 + ulen + (sp + dp + ulen + sum_words payload)).
+  { rewrite sum_words_app by (rewrite !app_length, Ls, Ld; reflexivity).
+    rewrite (sum_words_app s4) by (rewrite Ls; reflexivity). rewrite (sum_words_app d4) by (rewrite Ld; reflexivity).
+    rewrite (sum_words_app [0; 17]) by reflexivity. rewrite put16_exact, udp_seg_sum by (try assumption; lia).
+    change (sum_words [0; 17]) with 17. lia. }
+  rewrite Es.
+  destruct (udp_csum_generic s4 d4 sp dp payload _ Ls Ld Bs Bd Bp Hsp Hdp Hl eq_refl) as [c [Hc [U1 [U2 U3]]]].
+  fold ulen in Hc, U3. rewrite Hc. cbn [rbind]. eexists. split; [reflexivity|].
+  destruct (frame4_assemble s4 d4 sp dp payload hc (if c =? 0 then 65535 else c) Ls Ld Hsp Hdp Hl Hhv U1 U3) as [A [B C]].
+  split; [exact A|]. split; [exact B|]. subst total ulen. rewrite C.
+  unfold put16, byte_of. intros Hz. injection Hz as H1 H2. lia.
+Qed.
+
+Lemma build_ipv4_udp_frame_fields : forall v src dst sp dp payload s4 d4 f,
+  to4 src = Some s4 -> to4 dst = Some d4 -> build_ipv4_udp_frame v src dst sp dp payload = Ok (Some f) ->
+  frame4_fields f s4 d4 sp dp.
+Proof.
+  intros v src dst sp dp payload s4 d4 f Hs Hd H. pose proof (to4_length _ _ Hs) as Ls. pose proof (to4_length _ _ Hd) as Ld.
+  unfold build_ipv4_udp_frame in H. rewrite Hs, Hd in H.
+  destruct (csum_finish _) as [hc| | |]; cbn [rbind] in H; try discriminate.
+  destruct (udp4_csum _ _ _ _) as [uc| | |]; cbn [rbind] in H; try discriminate.
+  assert (E : f = ip4_header (20 + (8 + blen payload)) s4 d4 hc ++ udp_header sp dp (8 + blen payload) uc ++ payload) by congruence.
+  subst f. cells4 s4 Ls. cells4 d4 Ld. unfold frame4_fields, ip4_header, udp_header, put16. cbn [app firstn skipn]. repeat split.
+Qed.
+
+(* ================================================================== BuildOption82 *)
+Lemma sub_tlv_cons : forall f c d rest, (length d <= 255)%nat ->
+  sub_tlv (S f) (c :: blen d :: d ++ rest) =
+  match sub_tlv f rest with Some os => Some ((c, d) :: os) | None => None end.
+Proof.
+  intros f c d rest Hd. cbn [sub_tlv]. rewrite to_nat_blen, ltb_app_false, skipn_exact, firstn_exact by reflexivity. reflexivity.
+Qed.
+Definition o82_subs (fl un : bool) (circuit remote : bytes) : list (N * bytes) :=
+  [(1, circuit); (2, remote)] ++ (if fl then [(10, [if un then 1 else 0])] else []).
+Definition o82_len (fl : bool) (circuit remote : bytes) : nat :=
+  (2 + length circuit + 2 + length remote + (if fl then 3 else 0))%nat.
+
+Lemma build_option82_spec : forall fl un circuit remote,
+  ((o82_len fl circuit remote <= 255)%nat ->
+     exists body, build_option82 fl un circuit remote = Ok (82 :: blen body :: body) /\
+                  length body = o82_len fl circuit remote /\ sub_tlv 4 body = Some (o82_subs fl un circuit remote)) /\
+  ((255 < o82_len fl circuit remote)%nat -> exists e, build_option82 fl un circuit remote = Err e).
+Proof.
+  intros fl un circuit remote. unfold build_option82, o82_len. split; intros H.
+  - destruct (N.ltb_spec 255 (blen circuit)) as [H1|H1]; [unfold blen in H1; lia|].
+    destruct (N.ltb_spec 255 (blen remote)) as [H2|H2]; [unfold blen in H2; lia|].
+    destruct (N.ltb_spec 255 (2 + blen circuit + 2 + blen remote + (if fl then 3 else 0))) as [H3|H3];
+      [unfold blen in H3; destruct fl; lia|].
+    set (body := [1; blen circuit] ++ circuit ++ [2; blen remote] ++ remote ++ (if fl then [10; 1; if un then 1 else 0] else [])).
+    exists body.
+    assert (Lb : length body = (2 + length circuit + 2 + length remote + (if fl then 3 else 0))%nat)
+      by (subst body; rewrite !app_length; destruct fl; cbn [length]; lia).
+    assert (Eblen : blen body = 2 + blen circuit + 2 + blen remote + (if fl then 3 else 0))
+      by (unfold blen; rewrite Lb; destruct fl; lia).
+    split; [|split; [exact Lb|]].
+    + rewrite Eblen. reflexivity.
+    + subst body. unfold o82_subs. cbn [app]. rewrite sub_tlv_cons by (unfold blen in H1; lia).
+      rewrite sub_tlv_cons by (unfold blen in H2; lia).
+      destruct fl; cbn [app].
+      * change [10; 1; if un then 1 else 0] with (10 :: blen [if un then 1 else 0] :: [if un then 1 else 0] ++ []).
+        rewrite sub_tlv_cons by (cbn; lia). reflexivity.
+      * reflexivity.
+  - destruct (N.ltb_spec 255 (blen circuit)); [eauto|]. destruct (N.ltb_spec 255 (blen remote)); [eauto|].
+    destruct (N.ltb_spec 255 (2 + blen circuit + 2 + blen remote + (if fl then 3 else 0))) as [H3|H3]; [eauto|].
+    unfold blen in H3. destruct fl; lia.
+Qed.
+
+(* what the relay does with it: InsertOption82(pkt, BuildOption82(...), "replace") *)
+Lemma build_and_insert_option82 : forall hdr its tl fl un circuit remote,
+  length hdr = 240%nat -> Forall item_ok its -> wf_tail tl -> (o82_len fl circuit remote <= 255)%nat ->
+  exists o82 out body, build_option82 fl un circuit remote = Ok o82 /\
+    insert_option82 Repaired (wf_pkt hdr its tl) o82 Replace = Ok out /\ firstn 240 out = hdr /\
+    ref_options out = (filter (not_code 82) (opts_of its) ++ [(82, body)], tail_end tl) /\
+    sub_tlv 4 body = Some (o82_subs fl un circuit remote).
+Proof.
+  intros hdr its tl fl un circuit remote Lh Hok Htl Hlen.
+  destruct (proj1 (build_option82_spec fl un circuit remote) Hlen) as [body [Eb [Lb Hs]]].
+  destruct (opt82_replace_faithful hdr its tl body Lh Hok Htl ltac:(lia)) as [out [Eo [Eh Er]]].
+  exists (82 :: blen body :: body), out, body. auto.
+Qed.
+
+(* ================================================================== lease parameters -> reply options *)
+Lemma split_items_small : forall f c d, (length d <= 255)%nat -> split_items f c d = [Opt c d].
+Proof. intros [|f] c d H; cbn [split_items]; [reflexivity|]. destruct (Nat.ltb_spec 255 (length d)); [lia|reflexivity]. Qed.
+Lemma reply_items_small : forall mt opts, Forall (fun o => (length (snd o) <= 255)%nat) opts ->
+  opts_of (reply_items mt opts) = (53, [mt mod 256]) :: opts.
+Proof.
+  intros mt opts H. unfold reply_items. cbn [map concat fst snd]. rewrite split_items_small by (cbn; lia). cbn [app opts_of]. f_equal.
+  induction opts as [|[c d] r IH]; [reflexivity|]. inversion H; subst. cbn [map concat fst snd] in *.
+  rewrite split_items_small by assumption. cbn [app opts_of]. f_equal. apply IH. assumption.
+Qed.
+Lemma reply_shape : forall xid ci yi si hw mt opts, (length hw <= 212)%nat -> Forall opt_code_ok opts ->
+  build_dhcp4_reply Repaired xid ci yi si hw mt opts = Ok (wf_pkt (reply_hdr xid ci yi si hw) (reply_items mt opts) [255]) /\
+  Forall item_ok (reply_items mt opts).
+Proof.
+  intros xid ci yi si hw mt opts Hhw Hok.
+  assert (Hok' : Forall opt_code_ok ((53, [mt mod 256]) :: opts)) by (constructor; [split; cbn; lia|assumption]).
+  destruct (write_opts_enc _ Hok') as [E [Oki V]]. cbn zeta in E, Oki. fold (reply_items mt opts) in E, Oki.
+  split; [|exact Oki]. unfold build_dhcp4_reply. destruct (Nat.ltb_spec 212 (length hw)); [lia|]. f_equal.
+  unfold wf_pkt, reply_hdr. rewrite <- E. unfold write_opts. cbn [map concat fst snd]. rewrite <- !app_assoc. reflexivity.
+Qed.
+
+Lemma zeros_bytes : forall n, bytes_ok (zeros n).
+Proof. intros. apply Forall_forall. intros x Hx. apply repeat_spec in Hx. subst. unfold byte. lia. Qed.
+Lemma firstn_bytes : forall n l, bytes_ok l -> bytes_ok (firstn n l).
+Proof. intros n l H. apply Forall_forall. intros x Hx. eapply Forall_forall; [exact H|]. rewrite <- (firstn_skipn n l). apply in_or_app. auto. Qed.
+Lemma skipn_bytes : forall n l, bytes_ok l -> bytes_ok (skipn n l).
+Proof. intros n l H. apply Forall_forall. intros x Hx. eapply Forall_forall; [exact H|]. rewrite <- (firstn_skipn n l). apply in_or_app. auto. Qed.
+Lemma ip4_field_bytes : forall ip, ip_ok ip -> bytes_ok (ip4_field ip).
+Proof.
+  intros ip H. unfold ip4_field, field. destruct (to4 ip) as [b|] eqn:E; [|apply zeros_bytes].
+  apply firstn_bytes. apply Forall_app. split; [exact (proj2 (to4_some _ _ E H))|apply zeros_bytes].
+Qed.
+Lemma to4_bytes : forall ip, ip_ok ip -> bytes_ok (opt_bytes (to4 ip)).
+Proof. intros ip H. destruct (to4 ip) as [b|] eqn:E; [exact (proj2 (to4_some _ _ E H))|constructor]. Qed.
+Lemma add_opt_split_bytes : forall f c d, c < 256 -> bytes_ok d -> bytes_ok (add_opt_split f c d).
+Proof.
+  induction f as [|f IH]; intros c d Hc Hd; cbn [add_opt_split].
+  - apply Forall_app. split; [|exact Hd]. repeat constructor; unfold byte; lia.
+  - destruct (Nat.ltb_spec 255 (length d)).
+    + apply Forall_app. split; [repeat constructor; unfold byte; lia|]. apply Forall_app. split; [apply firstn_bytes; exact Hd|].
+      apply IH; [exact Hc|apply skipn_bytes; exact Hd].
+    + apply Forall_app. split; [|exact Hd]. repeat constructor; unfold byte, blen; lia.
+Qed.
+Definition opt_bytes_ok (o : N * bytes) : Prop := fst o < 256 /\ bytes_ok (snd o).
+Lemma write_opts_bytes : forall opts, Forall opt_bytes_ok opts -> bytes_ok (write_opts Repaired opts).
+Proof.
+  induction opts as [|[c d] r IH]; intros H; [constructor|]. inversion H as [|? ? [Hc Hd] Hr]; subst.
+  unfold write_opts. cbn [map concat]. apply Forall_app. split; [apply add_opt_split_bytes; assumption|apply IH; assumption].
+Qed.
+Lemma reply_bytes : forall xid ci yi si hw mt opts p, ip_ok ci -> ip_ok yi -> ip_ok si -> bytes_ok hw -> Forall opt_bytes_ok opts ->
+  build_dhcp4_reply Repaired xid ci yi si hw mt opts = Ok p -> bytes_ok p.
+Proof.
+  intros xid ci yi si hw mt opts p Hci Hyi Hsi Hhw Hopts H. unfold build_dhcp4_reply in H.
+  destruct (212 <? length hw)%nat; [discriminate|]. match type of H with Ok ?x = Ok _ => assert (E : p = x) by congruence end. subst p. clear H.
+  unfold magic, add_opt.
+  repeat (apply Forall_app; split);
+    first [ apply put32_bytes | apply zeros_bytes | apply ip4_field_bytes; assumption
+          | apply firstn_bytes; apply Forall_app; split; [assumption|apply zeros_bytes]
+          | apply write_opts_bytes; assumption
+          | apply add_opt_split_bytes; [lia|repeat constructor; unfold byte; lia]
+          | repeat constructor; unfold byte; lia ].
+Qed.
+
+(* RFC 3442 *)
+Definition route_ok (r : N * option bytes * option bytes) : Prop :=
+  let '(ones, dst, nh) := r in ones <= 32 /\ length (opt_bytes (to4 dst)) = 4%nat /\ length (opt_bytes (to4 nh)) = 4%nat.
+Definition route_view (r : N * option bytes * option bytes) : N * bytes * bytes :=
+  let '(ones, dst, nh) := r in (ones, firstn (N.to_nat ((ones + 7) / 8)) (opt_bytes (to4 dst)), opt_bytes (to4 nh)).
+Lemma classless_roundtrip : forall routes f, Forall route_ok routes ->
+  exists rt, classless routes = Ok rt /\ ref_routes (length routes + S f) rt = Some (map route_view routes).
+Proof.
+  induction routes as [|[[ones dst] nh] r IH]; intros f H.
+  - exists []. split; reflexivity.
+  - inversion H as [|? ? Hro Hr]; subst. unfold route_ok in Hro. destruct Hro as [Ho [Ld Ln]]. destruct (IH f Hr) as [rt [E R]].
+    cbn [classless]. destruct (N.leb_spec ones 32); [|lia].
+    set (sb := N.to_nat ((ones + 7) / 8)). assert (Hsb : (sb <= 4)%nat) by (subst sb; lia).
+    destruct (Nat.ltb_spec (length (opt_bytes (to4 dst))) sb); [lia|]. rewrite E. cbn [rbind].
+    eexists. split; [reflexivity|]. cbn [length plus app ref_routes map route_view].
+    destruct (N.ltb_spec 32 ones); [lia|]. fold sb.
+    assert (Lf : length (firstn sb (opt_bytes (to4 dst))) = sb) by (rewrite firstn_length; lia).
+    destruct (Nat.ltb_spec (length (firstn sb (opt_bytes (to4 dst)) ++ opt_bytes (to4 nh) ++ rt)) (sb + 4)) as [Hlt|Hge];
+      [rewrite !app_length, Lf, Ln in Hlt; lia|].
+    replace (firstn sb (opt_bytes (to4 dst)) ++ opt_bytes (to4 nh) ++ rt)
+      with ((firstn sb (opt_bytes (to4 dst)) ++ opt_bytes (to4 nh)) ++ rt) by (rewrite <- app_assoc; reflexivity).
+    rewrite skipn_exact by (rewrite app_length, Lf, Ln; reflexivity). rewrite R.
+    rewrite <- app_assoc. rewrite firstn_exact by exact Lf.
+    rewrite skipn_exact by exact Lf. rewrite firstn_exact by exact Ln. reflexivity.
+Qed.
+
+Definition resolved_opts (lease : N) (mask : bytes) (sid router : option bytes) (dns : list (option bytes)) (rt : bytes)
+           (routes : list (N * option bytes * option bytes)) (extra : list (N * bytes)) : list (N * bytes) :=
+  [(51, put32 lease); (1, mask)]
+  ++ (match sid with Some _ => [(54, opt_bytes (to4 sid))] | None => [] end)
+  ++ (match router with Some _ => [(3, opt_bytes (to4 router))] | None => [] end)
+  ++ (match dns with [] => [] | _ => [(6, dns_data dns)] end)
+  ++ (match routes with [] => [] | _ => [(121, rt)] end)
+  ++ extra.
+Definition std_codes : list N := [53; 51; 1; 54; 3; 6; 121].
+Definition raw_ok (o : N * bytes) : Prop := raw_option_valid o = true /\ fst o < 256 /\ bytes_ok (snd o).
+
+Lemma raw_ok_code : forall o, raw_option_valid o = true -> opt_code_ok o /\ (forall c, In c std_codes -> has_code c o = false) /\ (length (snd o) <= 255)%nat.
+Proof.
+  intros [c d] H. unfold raw_option_valid in H. cbn [fst snd] in H. apply andb_true_iff in H. destruct H as [H1 H2].
+  apply negb_true_iff in H1. cbn [existsb] in H1. repeat (apply orb_false_iff in H1; destruct H1 as [? H1]).
+  repeat match goal with E : (_ =? _) = false |- _ => apply N.eqb_neq in E end.
+  split; [split; cbn [fst]; congruence|]. split; [|apply Nat.leb_le; exact H2].
+  intros c0 Hc. unfold has_code, std_codes in *. cbn [fst In] in *. apply N.eqb_neq.
+  repeat (destruct Hc as [<-|Hc]; [congruence|]). contradiction.
+Qed.
+Lemma std_once : forall mt lease mask sid router dns rt routes extra c, Forall raw_ok extra -> In c std_codes ->
+  Nat.le (length (filter (has_code c) ((53, [mt mod 256]) :: resolved_opts lease mask sid router dns rt routes extra))) 1.
+Proof.
+  intros mt lease mask sid router dns rt routes extra c Hex Hc.
+  assert (Fe : filter (has_code c) extra = []).
+  { induction extra as [|o r IH]; [reflexivity|]. inversion Hex as [|? ? [Hv _] Hr]; subst. cbn [filter].
+    rewrite (proj1 (proj2 (raw_ok_code o Hv)) c Hc). apply IH. assumption. }
+  unfold resolved_opts. change ((53, [mt mod 256]) :: ?x) with ([(53, [mt mod 256])] ++ x). rewrite !filter_app, Fe, app_nil_r.
+  unfold std_codes in Hc. cbn [In] in Hc.
+  destruct sid; destruct router; destruct dns; destruct routes;
+    repeat (destruct Hc as [<-|Hc]; [unfold has_code; cbn; lia|]); contradiction.
+Qed.
+
+Definition bcast : bytes := [255; 255; 255; 255].
+
+Lemma resolved_reply : forall xid ci hw mt yip router sid mask dns lease routes extra src s4,
+  xid < 4294967296 -> (length hw <= 16)%nat -> lease < 4294967296 ->
+  ip_ok ci -> ip_ok yip -> ip_ok router -> ip_ok sid -> bytes_ok hw -> bytes_ok mask -> Forall ip_ok dns ->
+  Forall route_ok routes -> Forall (fun r => ip_ok (snd (fst r)) /\ ip_ok (snd r)) routes -> Forall raw_ok extra ->
+  src = match sid with Some _ => sid | None => router end -> to4 src = Some s4 ->
+  exists rt payload view,
+    (routes <> [] -> classless routes = Ok rt /\ ref_routes (length routes + 1) rt = Some (map route_view routes)) /\
+    build_dhcp4_reply Repaired xid ci yip src hw mt (resolved_opts lease mask sid router dns rt routes extra) = Ok payload /\
+    bytes_ok payload /\
+    (blen payload <= 65507 ->
+       exists f, build_response_resolved Repaired xid ci hw mt yip router sid mask dns lease routes extra = Ok (Some f) /\
+                 frame4_ok f payload /\ frame4_fields f s4 bcast 67 68 /\ firstn 2 (skipn 26 f) <> [0; 0]) /\
+    ref_decode4 payload = Some view /\ v_op view = 2 /\ v_xid view = xid /\ v_yiaddr view = ip4_field yip /\
+    v_siaddr view = s4 /\ v_chaddr view = hw ++ zeros (16 - length hw) /\ v_cookie_ok view = true /\ v_end view = EndSeen [] /\
+    (forall code, opt_value code (v_opts view) =
+                  concat (map snd (filter (has_code code) ((53, [mt mod 256]) :: resolved_opts lease mask sid router dns rt routes extra)))) /\
+    ((length mask <= 255)%nat -> (length (dns_data dns) <= 255)%nat -> (length rt <= 255)%nat ->
+       v_opts view = (53, [mt mod 256]) :: resolved_opts lease mask sid router dns rt routes extra).
+Proof.
+  intros xid ci hw mt yip router sid mask dns lease routes extra src s4 Hx Hhw Hlease Oci Oyi Orouter Osid Bhw Bmask Odns Hroutes Broutes Hextra Esrc Hsrc.
+  (* the classless-route bytes *)
+  destruct (classless_roundtrip routes 0 Hroutes) as [rt0 [Ert0 Rrt0]].
+  set (rt := match routes with [] => [] | _ => rt0 end).
+  assert (Hrt : (match routes with [] => Ok [] | _ => classless routes end) = Ok rt) by (subst rt; destruct routes; [reflexivity|exact Ert0]).
+  assert (Brt : bytes_ok rt0).
+  { clear - Ert0 Broutes Hroutes. revert rt0 Ert0. induction routes as [|[[ones dst] nh] r IH]; intros rt0 E.
+    - cbn in E. injection E as <-. constructor.
+    - inversion Broutes as [|? ? [Bd Bn] Br]; subst. inversion Hroutes as [|? ? Hro Hr]; subst. unfold route_ok in Hro. cbn [fst snd] in Bd, Bn.
+      cbn [classless] in E. destruct (N.leb_spec ones 32); [|lia].
+      destruct (length (opt_bytes (to4 dst)) <? _)%nat; [discriminate|].
+      destruct (classless r) as [rest| | |] eqn:Er; cbn [rbind] in E; try discriminate.
+      match type of E with Ok ?x = Ok _ => assert (E' : rt0 = x) by congruence end. subst rt0.
+      repeat (apply Forall_app; split);
+        first [ apply firstn_bytes; apply to4_bytes; assumption | apply to4_bytes; assumption
+              | solve [repeat constructor; unfold byte; lia] | eapply IH; eauto ]. }
+  set (opts := resolved_opts lease mask sid router dns rt routes extra).
+  assert (Hsrc_ok : ip_ok src) by (subst src; destruct sid; assumption).
+  assert (Hcodes : Forall opt_code_ok opts /\ Forall opt_bytes_ok opts).
+  { subst opts. unfold resolved_opts.
+    assert (Hx1 : Forall opt_code_ok extra /\ Forall opt_bytes_ok extra).
+    { clear - Hextra. induction extra as [|o r IH]; [split; constructor|]. inversion Hextra as [|? ? [Hv [Hc Hb]] Hr]; subst.
+      destruct (IH Hr). split; constructor; auto. exact (proj1 (raw_ok_code o Hv)). split; assumption. }
+    destruct Hx1 as [X1 X2].
+    assert (Bdns : bytes_ok (dns_data dns)).
+    { clear - Odns. unfold dns_data. induction dns as [|d r IH]; [constructor|]. inversion Odns; subst. cbn [map concat].
+      apply Forall_app. split; [|apply IH; assumption]. pose proof (to4_bytes d ltac:(assumption)) as B. destruct (to4 d); [exact B|constructor]. }
+    assert (Brt' : bytes_ok rt) by (subst rt; destruct routes; [constructor|exact Brt]).
+    assert (T : forall c d, c <> 0 -> c <> 255 -> c < 256 -> bytes_ok d ->
+                Forall opt_code_ok [(c, d)] /\ Forall opt_bytes_ok [(c, d)]).
+    { intros c d A B C D. split; (constructor; [split; cbn [fst snd]; assumption|constructor]). }
+    destruct (T 51 (put32 lease)) as [a1 b1]; try lia; [apply put32_bytes|].
+    destruct (T 1 mask) as [a2 b2]; try lia; [assumption|].
+    destruct (T 54 (opt_bytes (to4 sid))) as [a3 b3]; try lia; [apply to4_bytes; assumption|].
+    destruct (T 3 (opt_bytes (to4 router))) as [a4 b4]; try lia; [apply to4_bytes; assumption|].
+    destruct (T 6 (dns_data dns)) as [a5 b5]; try lia; [assumption|].
+    destruct (T 121 rt) as [a6 b6]; try lia; [assumption|].
+    split; repeat (apply Forall_app; split); try assumption;
+      first [ solve [constructor; [inversion a1; assumption|assumption]]
+            | solve [constructor; [inversion b1; assumption|assumption]]
+            | solve [destruct sid; [assumption|constructor]] | solve [destruct router; [assumption|constructor]]
+            | solve [destruct dns; [constructor|assumption]] | solve [destruct routes; [constructor|assumption]] ]. }
+  destruct Hcodes as [Hco Hbo].
+  destruct (reply_decodes xid ci yip src hw mt opts Hx Hhw Hco) as [payload [view [Ep [Ev [V1 [V2 [V3 [V4 [V5 [V6 [V7 [V8 V9]]]]]]]]]]]].
+  exists rt, payload, view.
+  pose proof (reply_bytes _ _ _ _ _ _ _ _ Oci Oyi Hsrc_ok Bhw Hbo Ep) as Bpayload.
+  split; [|split; [exact Ep|split; [exact Bpayload|split; [|split; [exact Ev|]]]]].
+  - intros Hne. subst rt. destruct routes as [|r0 rs]; [contradiction|]. split; [exact Ert0|exact Rrt0].
+  - intros Hlen. unfold build_response_resolved. rewrite <- Esrc, Hrt. cbn [rbind].
+    match goal with |- context [build_dhcp4_reply Repaired xid ci yip src hw mt ?o] => change o with opts end.
+    rewrite Ep. cbn [rbind]. change [255; 255; 255; 255] with bcast.
+    assert (Hb : to4 (Some bcast) = Some bcast) by reflexivity.
+    destruct (build_ipv4_udp_frame_ok Repaired src (Some bcast) 67 68 payload s4 bcast Hsrc Hb Hsrc_ok) as [f [Ef [Fok Fnz]]];
+      try assumption; try lia; [unfold bcast; repeat constructor; unfold byte; lia|].
+    exists f. split; [exact Ef|]. split; [exact Fok|]. split; [|apply Fnz; reflexivity].
+    eapply build_ipv4_udp_frame_fields; eassumption.
+  - destruct (reply_shape xid ci yip src hw mt opts ltac:(lia) Hco) as [Esh Oki]. rewrite Ep in Esh.
+    assert (Epay : payload = wf_pkt (reply_hdr xid ci yip src hw) (reply_items mt opts) [255]) by congruence.
+    pose proof (reply_hdr_length xid ci yip src hw) as LH.
+    assert (Etl : wf_tail [255]) by (right; exists []; reflexivity).
+    assert (Evo : v_opts view = opts_of (reply_items mt opts) /\ v_siaddr view = firstn 4 (skipn 20 payload)).
+    { clear - Ev Epay LH Oki Etl. subst payload. unfold ref_decode4 in Ev. rewrite wf_pkt_len in Ev by assumption.
+      rewrite ref_options_wf in Ev by assumption. injection Ev as <-. cbn [v_opts v_siaddr]. split; reflexivity. }
+    destruct Evo as [Evo Esi].
+    repeat split; try assumption.
+    + rewrite Esi, Epay. unfold wf_pkt, reply_hdr. rewrite <- !app_assoc.
+      assert (Fl : forall ip, length (ip4_field ip) = 4%nat) by (intros; apply field_length).
+      match goal with |- firstn 4 (skipn 20 ?l) = _ =>
+        replace l with (([2; 1; 6; 0] ++ put32 xid ++ zeros 4 ++ ip4_field ci ++ ip4_field yip) ++ ip4_field src ++
+                        (zeros 4 ++ firstn 208 (hw ++ zeros 208) ++ magic ++ enc (reply_items mt opts) ++ [255]))
+          by (rewrite <- !app_assoc; reflexivity) end.
+      rewrite block; [|rewrite !app_length, !Fl; reflexivity|apply Fl]. unfold ip4_field. apply field4_id. exact Hsrc.
+    + intros L1 L2 L3. rewrite Evo. apply reply_items_small. subst opts. unfold resolved_opts.
+      assert (Hex : Forall (fun o : N * bytes => (length (snd o) <= 255)%nat) extra).
+      { clear - Hextra. induction extra as [|o r IH]; [constructor|]. inversion Hextra as [|? ? [Hv _] Hr]; subst.
+        constructor; [exact (proj2 (proj2 (raw_ok_code o Hv)))|apply IH; assumption]. }
+      assert (H4 : forall ip, (length (opt_bytes (to4 ip)) <= 255)%nat).
+      { intros ip. destruct (to4 ip) eqn:E4; cbn [opt_bytes]; [rewrite (to4_length _ _ E4)|cbn]; lia. }
+      repeat (apply Forall_app; split); try exact Hex;
+        first [ solve [constructor; [cbn [snd length put32]; lia|constructor; [exact L1|constructor]]]
+              | solve [destruct sid; [constructor; [apply H4|constructor]|constructor]]
+              | solve [destruct router; [constructor; [apply H4|constructor]|constructor]]
+              | solve [destruct dns; [constructor|constructor; [exact L2|constructor]]]
+              | solve [destruct routes; [constructor|constructor; [exact L3|constructor]]] ].
+Qed.
+
+Definition pool_opts (lease : N) (mask g4 : bytes) (dns : list (option bytes)) (extra : list (N * bytes)) : list (N * bytes) :=
+  [(54, g4); (51, put32 lease); (1, mask); (3, g4)] ++ (match dns with [] => [] | _ => [(6, dns_data dns)] end) ++ extra.
+
+Lemma dns_data_bytes : forall dns, Forall ip_ok dns -> bytes_ok (dns_data dns).
+Proof.
+  intros dns Odns. unfold dns_data. induction dns as [|d r IH]; [constructor|]. inversion Odns; subst. cbn [map concat].
+  apply Forall_app. split; [|apply IH; assumption]. pose proof (to4_bytes d ltac:(assumption)) as B. destruct (to4 d); [exact B|constructor].
+Qed.
+
+Lemma pool_reply : forall xid ci hw mt ip gateway g4 mask dns lease extra,
+  xid < 4294967296 -> (length hw <= 16)%nat -> ip_ok ci -> ip_ok ip -> ip_ok gateway -> bytes_ok hw -> bytes_ok mask ->
+  Forall ip_ok dns -> Forall raw_ok extra -> to4 gateway = Some g4 ->
+  exists payload view,
+    build_dhcp4_reply Repaired xid ci ip gateway hw mt (pool_opts lease mask g4 dns extra) = Ok payload /\ bytes_ok payload /\
+    (blen payload <= 65507 ->
+       exists f, build_response_pool Repaired xid ci hw mt ip gateway mask dns lease extra = Ok (Some f) /\
+                 frame4_ok f payload /\ frame4_fields f g4 bcast 67 68 /\ firstn 2 (skipn 26 f) <> [0; 0]) /\
+    ref_decode4 payload = Some view /\ v_op view = 2 /\ v_xid view = xid /\ v_yiaddr view = ip4_field ip /\
+    v_chaddr view = hw ++ zeros (16 - length hw) /\ v_cookie_ok view = true /\ v_end view = EndSeen [] /\
+    (forall code, opt_value code (v_opts view) =
+                  concat (map snd (filter (has_code code) ((53, [mt mod 256]) :: pool_opts lease mask g4 dns extra)))).
+Proof.
+  intros xid ci hw mt ip gateway g4 mask dns lease extra Hx Hhw Oci Oip Ogw Bhw Bmask Odns Hextra Hgw.
+  destruct (to4_some _ _ Hgw Ogw) as [Lg Bg].
+  set (opts := pool_opts lease mask g4 dns extra).
+  assert (Hx1 : Forall opt_code_ok extra /\ Forall opt_bytes_ok extra).
+  { clear - Hextra. induction extra as [|o r IH]; [split; constructor|]. inversion Hextra as [|? ? [Hv [Hc Hb]] Hr]; subst.
+    destruct (IH Hr). split; constructor; auto. exact (proj1 (raw_ok_code o Hv)). split; assumption. }
+  destruct Hx1 as [X1 X2]. pose proof (dns_data_bytes dns Odns) as Bdns.
+  assert (T : forall c d, c <> 0 -> c <> 255 -> c < 256 -> bytes_ok d -> opt_code_ok (c, d) /\ opt_bytes_ok (c, d))
+    by (intros c d A B C D; split; split; cbn [fst snd]; assumption).
+  assert (Hcodes : Forall opt_code_ok opts /\ Forall opt_bytes_ok opts).
+  { subst opts. unfold pool_opts.
+    destruct (T 54 g4) as [a1 b1]; try lia; [assumption|]. destruct (T 51 (put32 lease)) as [a2 b2]; try lia; [apply put32_bytes|].
+    destruct (T 1 mask) as [a3 b3]; try lia; [assumption|]. destruct (T 3 g4) as [a4 b4]; try lia; [assumption|].
+    destruct (T 6 (dns_data dns)) as [a5 b5]; try lia; [assumption|].
+    split; repeat (apply Forall_app; split); try assumption;
+      first [ solve [repeat (constructor; [assumption|]); constructor] | solve [destruct dns; [constructor|constructor; [assumption|constructor]]] ]. }
+  destruct Hcodes as [Hco Hbo].
+  destruct (reply_decodes xid ci ip gateway hw mt opts Hx Hhw Hco) as [payload [view [Ep [Ev [V1 [V2 [V3 [V4 [V5 [V6 [V7 [V8 V9]]]]]]]]]]]].
+  exists payload, view.
+  pose proof (reply_bytes _ _ _ _ _ _ _ _ Oci Oip Ogw Bhw Hbo Ep) as Bpayload.
+  split; [exact Ep|]. split; [exact Bpayload|]. split; [|repeat split; assumption].
+  intros Hlen. unfold build_response_pool. rewrite Hgw. cbn [opt_bytes].
+  match goal with |- context [build_dhcp4_reply Repaired xid ci ip gateway hw mt ?o] => change o with opts end.
+  rewrite Ep. cbn [rbind]. change [255; 255; 255; 255] with bcast.
+  assert (Hb : to4 (Some bcast) = Some bcast) by reflexivity.
+  destruct (build_ipv4_udp_frame_ok Repaired gateway (Some bcast) 67 68 payload g4 bcast Hgw Hb Ogw) as [f [Ef [Fok Fnz]]];
+    try assumption; try lia; [unfold bcast; repeat constructor; unfold byte; lia|].
+  exists f. split; [exact Ef|]. split; [exact Fok|]. split; [|apply Fnz; reflexivity].
+  eapply build_ipv4_udp_frame_fields; eassumption.
+Qed.
+
+(* ================================================================== DHCPv6 rewriters *)
+Definition rw_data (v : variant) (dp : nat) (pref valid code : N) (d : bytes) : bytes :=
+  if ((code =? 3) || (code =? 25))%bool then
+    if (12 <=? length d)%nat then
+      firstn 4 d ++ put32 (pref_t1 pref) ++ put32 (pref_t2 v pref) ++ rewrite6 v dp (length d) pref valid (skipn 12 d)
+    else d
+  else if code =? 5 then
+    if (24 <=? length d)%nat then firstn 16 d ++ put32 pref ++ put32 valid ++ skipn 24 d else d
+  else if code =? 26 then
+    if (8 <=? length d)%nat then put32 pref ++ put32 valid ++ skipn 8 d else d
+  else d.
+Definition rw_opt (v : variant) (dp : nat) (pref valid : N) (o : N * bytes) : N * bytes :=
+  (fst o, rw_data v dp pref valid (fst o) (snd o)).
+
+Lemma rewrite6_step : forall v dp f pref valid c1 c2 l1 l2 r,
+  rewrite6 v (S dp) (S f) pref valid (c1 :: c2 :: l1 :: l2 :: r) =
+  let n := N.to_nat (be16 l1 l2) in
+  if (length r <? n)%nat then c1 :: c2 :: l1 :: l2 :: r
+  else [c1; c2; l1; l2] ++ rw_data v dp pref valid (be16 c1 c2) (firstn n r) ++ rewrite6 v (S dp) f pref valid (skipn n r).
+Proof.
+  intros. cbn [rewrite6]. cbn zeta. destruct (Nat.ltb_spec (length r) (N.to_nat (be16 l1 l2))) as [H|H]; [reflexivity|].
+  unfold rw_data. rewrite firstn_length, Nat.min_l by lia. reflexivity.
+Qed.
+Lemma rewrite6_short : forall v dp f pref valid l, (length l < 4)%nat -> rewrite6 v dp f pref valid l = l.
+Proof.
+  intros v [|dp] [|f] pref valid l H; try reflexivity.
+  destruct l as [|a [|b [|c [|d r]]]]; try reflexivity. cbn [length] in H. lia.
+Qed.
+Lemma rewrite6_length : forall v dp f pref valid l, length (rewrite6 v dp f pref valid l) = length l.
+Proof.
+  intros v dp. induction dp as [|dp IHdp]; intros f pref valid l; [reflexivity|].
+  revert l. induction f as [|f IHf]; intros l; [reflexivity|].
+  destruct l as [|c1 [|c2 [|l1 [|l2 r]]]]; try reflexivity.
+  rewrite rewrite6_step. cbn zeta. destruct (Nat.ltb_spec (length r) (N.to_nat (be16 l1 l2))) as [H|H]; [reflexivity|].
+  set (n := N.to_nat (be16 l1 l2)) in *. rewrite !app_length, IHf. cbn [length].
+  assert (Ld : length (rw_data v dp pref valid (be16 c1 c2) (firstn n r)) = n).
+  { assert (Lf : length (firstn n r) = n) by (rewrite firstn_length; lia). unfold rw_data.
+    destruct ((be16 c1 c2 =? 3) || (be16 c1 c2 =? 25))%bool.
+    - destruct (Nat.leb_spec 12 (length (firstn n r))); [|exact Lf].
+      rewrite !app_length, IHdp, firstn_length, skipn_length, !put32_length. lia.
+    - destruct (be16 c1 c2 =? 5).
+      + destruct (Nat.leb_spec 24 (length (firstn n r))); [|exact Lf].
+        rewrite !app_length, firstn_length, skipn_length, !put32_length. lia.
+      + destruct (be16 c1 c2 =? 26); [|exact Lf].
+        destruct (Nat.leb_spec 8 (length (firstn n r))); [|exact Lf].
+        rewrite !app_length, skipn_length, !put32_length. lia. }
+  rewrite Ld, skipn_length. lia.
+Qed.
+Lemma rw_data_length : forall v dp pref valid c d, length (rw_data v dp pref valid c d) = length d.
+Proof.
+  intros. unfold rw_data. destruct ((c =? 3) || (c =? 25))%bool.
+  - destruct (Nat.leb_spec 12 (length d)); [|reflexivity]. rewrite !app_length, rewrite6_length, firstn_length, skipn_length, !put32_length. lia.
+  - destruct (c =? 5).
+    + destruct (Nat.leb_spec 24 (length d)); [|reflexivity]. rewrite !app_length, firstn_length, skipn_length, !put32_length. lia.
+    + destruct (c =? 26); [|reflexivity]. destruct (Nat.leb_spec 8 (length d)); [|reflexivity].
+      rewrite !app_length, skipn_length, !put32_length. lia.
+Qed.
+Lemma rewrite6_enc6 : forall v dp pref valid os f, Forall opt6_ok os ->
+  rewrite6 v (S dp) (length os + f) pref valid (enc6 os) = enc6 (map (rw_opt v dp pref valid) os).
+Proof.
+  intros v dp pref valid os. induction os as [|[c d] r IH]; intros f Hok.
+  - cbn [enc6 map concat length plus]. apply rewrite6_short. cbn. lia.
+  - inversion Hok as [|? ? [Hc Hd] Hr]; subst. cbn [fst snd] in Hc, Hd.
+    rewrite enc6_cons. cbn [fst snd length plus map]. rewrite enc6_cons. cbn [fst snd rw_opt].
+    rewrite !opt6_cells. rewrite <- !app_comm_cons. rewrite rewrite6_step. cbn zeta.
+    rewrite !be16_bytes by assumption. rewrite to_nat_blen, ltb_app_false, firstn_exact, skipn_exact by reflexivity.
+    rewrite IH by assumption. cbn [app].
+    assert (Eb : blen (rw_data v dp pref valid c d) = blen d) by (unfold blen; rewrite rw_data_length; reflexivity).
+    rewrite Eb. reflexivity.
+Qed.
+
+Lemma rewrite_v6_lifetimes_spec : forall v h4 os pref valid, length h4 = 4%nat -> Forall opt6_ok os ->
+  exists dp, rewrite_v6_lifetimes v (h4 ++ enc6 os) pref valid = h4 ++ enc6 (map (rw_opt v dp pref valid) os).
+Proof.
+  intros v h4 os pref valid L4 Hok. unfold rewrite_v6_lifetimes. rewrite app_length, L4.
+  destruct (Nat.ltb_spec (4 + length (enc6 os)) 4); [lia|].
+  rewrite firstn_exact, skipn_exact by assumption.
+  assert (Hl : (length os <= length (enc6 os))%nat).
+  { clear. induction os as [|o q IH]; [cbn; lia|]. rewrite enc6_cons, app_length. unfold opt6. rewrite !app_length. cbn [length put16]. lia. }
+  exists (4 + length (enc6 os))%nat.
+  replace (S (4 + length (enc6 os))) with (length os + (S (4 + length (enc6 os)) - length os))%nat at 2 by lia.
+  rewrite rewrite6_enc6 by assumption. reflexivity.
+Qed.
+(* what a rewritten option looks like *)
+Lemma rw_opt_facts : forall v dp pref valid o,
+  fst (rw_opt v dp pref valid o) = fst o /\ length (snd (rw_opt v dp pref valid o)) = length (snd o) /\
+  (fst o <> 3 -> fst o <> 25 -> fst o <> 5 -> fst o <> 26 -> rw_opt v dp pref valid o = o) /\
+  ((fst o = 3 \/ fst o = 25) -> (12 <= length (snd o))%nat ->
+     firstn 4 (snd (rw_opt v dp pref valid o)) = firstn 4 (snd o) /\
+     firstn 8 (skipn 4 (snd (rw_opt v dp pref valid o))) = put32 (pref_t1 pref) ++ put32 (pref_t2 v pref)) /\
+  (fst o = 5 -> (24 <= length (snd o))%nat ->
+     snd (rw_opt v dp pref valid o) = firstn 16 (snd o) ++ put32 pref ++ put32 valid ++ skipn 24 (snd o)) /\
+  (fst o = 26 -> (8 <= length (snd o))%nat ->
+     snd (rw_opt v dp pref valid o) = put32 pref ++ put32 valid ++ skipn 8 (snd o)).
+Proof.
+  intros v dp pref valid [c d]. unfold rw_opt. cbn [fst snd]. split; [reflexivity|]. split; [apply rw_data_length|].
+  split; [|split; [|split]].
+  - intros H3 H25 H5 H26. unfold rw_data.
+    destruct (N.eqb_spec c 3); [contradiction|]. destruct (N.eqb_spec c 25); [contradiction|].
+    destruct (N.eqb_spec c 5); [contradiction|]. destruct (N.eqb_spec c 26); [contradiction|]. reflexivity.
+  - intros Hc Hl. unfold rw_data. assert (E : ((c =? 3) || (c =? 25))%bool = true) by (destruct Hc as [->| ->]; reflexivity).
+    rewrite E. destruct (Nat.leb_spec 12 (length d)); [|lia]. split.
+    + rewrite firstn_app, firstn_firstn, firstn_length. replace (4 - Nat.min 4 (length d))%nat with 0%nat by lia.
+      rewrite firstn_O, app_nil_r. f_equal.
+    + rewrite skipn_exact by (rewrite firstn_length; lia). rewrite app_assoc. apply firstn_exact. reflexivity.
+  - intros -> Hl. unfold rw_data. cbn [N.eqb Pos.eqb orb]. destruct (Nat.leb_spec 24 (length d)); [reflexivity|lia].
+  - intros -> Hl. unfold rw_data. cbn [N.eqb Pos.eqb orb]. destruct (Nat.leb_spec 8 (length d)); [reflexivity|lia].
+Qed.
+
+(* ReplaceServerDUID / GetServerDUID *)
+Lemma duid_loop_enc6 : forall a f d b nd, Forall opt6_ok a -> Forall (fun o => fst o <> 2) a -> blen d < 65536 ->
+  duid_loop (length a + S f) (enc6 a ++ opt6 2 d ++ b) nd = enc6 a ++ opt6 2 nd ++ b.
+Proof.
+  induction a as [|[c x] r IH]; intros f d b nd Hok Hn Hd.
+  - cbn [length plus enc6 concat map app]. rewrite opt6_cells. cbn [app duid_loop].
+    rewrite !be16_bytes by (try assumption; lia). rewrite to_nat_blen, ltb_app_false, skipn_exact by reflexivity. reflexivity.
+  - inversion Hok as [|? ? [Hc Hx] Hr]; subst. inversion Hn as [|? ? Hc2 Hn']; subst. cbn [fst snd] in Hc, Hx, Hc2.
+    rewrite enc6_cons. cbn [fst snd length plus]. rewrite opt6_cells, <- !app_comm_cons. cbn [app duid_loop].
+    rewrite !be16_bytes by assumption. rewrite <- app_assoc. rewrite to_nat_blen, ltb_app_false, skipn_exact, firstn_exact by reflexivity.
+    destruct (N.eqb_spec c 2); [contradiction|]. rewrite IH by assumption. rewrite <- !app_assoc. reflexivity.
+Qed.
+Lemma get_duid_loop_enc6 : forall a f d b, Forall opt6_ok a -> Forall (fun o => fst o <> 2) a -> blen d < 65536 ->
+  get_duid_loop (length a + S f) (enc6 a ++ opt6 2 d ++ b) = Some d.
+Proof.
+  induction a as [|[c x] r IH]; intros f d b Hok Hn Hd.
+  - cbn [length plus enc6 concat map app]. rewrite opt6_cells. cbn [app get_duid_loop].
+    rewrite !be16_bytes by (try assumption; lia). rewrite to_nat_blen, ltb_app_false, firstn_exact by reflexivity. reflexivity.
+  - inversion Hok as [|? ? [Hc Hx] Hr]; subst. inversion Hn as [|? ? Hc2 Hn']; subst. cbn [fst snd] in Hc, Hx, Hc2.
+    rewrite enc6_cons. cbn [fst snd length plus]. rewrite opt6_cells, <- !app_comm_cons. cbn [app get_duid_loop].
+    rewrite !be16_bytes by assumption. rewrite <- app_assoc. rewrite to_nat_blen, ltb_app_false, skipn_exact by reflexivity.
+    destruct (N.eqb_spec c 2); [contradiction|]. apply IH; assumption.
+Qed.
+Lemma replace_server_duid_spec : forall h4 a d b nd, length h4 = 4%nat -> Forall opt6_ok a -> Forall (fun o => fst o <> 2) a ->
+  blen d < 65536 -> blen nd < 65536 ->
+  replace_server_duid (h4 ++ enc6 (a ++ (2, d) :: b)) nd = h4 ++ enc6 (a ++ (2, nd) :: b) /\
+  get_server_duid (h4 ++ enc6 (a ++ (2, nd) :: b)) = Some nd.
+Proof.
+  intros h4 a d b nd L4 Hok Hn Hd Hnd.
+  assert (Hl : forall x : bytes, Nat.le (length a) (length (enc6 (a ++ (2, x) :: b)))).
+  { intros x. rewrite enc6_app, app_length. clear. induction a as [|o q IH]; [cbn; lia|]. rewrite enc6_cons, app_length. unfold opt6.
+    rewrite !app_length. cbn [length put16]. lia. }
+  assert (Esh : forall x, enc6 (a ++ (2, x) :: b) = enc6 a ++ opt6 2 x ++ enc6 b) by (intros; rewrite enc6_app, enc6_cons; reflexivity).
+  split.
+  - unfold replace_server_duid. rewrite app_length, L4. destruct (Nat.ltb_spec (4 + length (enc6 (a ++ (2, d) :: b))) 4); [lia|].
+    rewrite firstn_exact, skipn_exact by assumption. f_equal. pose proof (Hl d) as Hld.
+    set (L := length (enc6 (a ++ (2, d) :: b))) in *.
+    replace (S (4 + L)) with (length a + S (4 + L - length a))%nat by lia.
+    rewrite !Esh. apply duid_loop_enc6; assumption.
+  - unfold get_server_duid. rewrite app_length, L4. destruct (Nat.ltb_spec (4 + length (enc6 (a ++ (2, nd) :: b))) 4); [lia|].
+    rewrite skipn_exact by assumption. pose proof (Hl nd) as Hld.
+    set (L := length (enc6 (a ++ (2, nd) :: b))) in *.
+    replace (S (4 + L)) with (length a + S (4 + L - length a))%nat by lia.
+    rewrite Esh. apply get_duid_loop_enc6; assumption.
+Qed.
+
+(* unwrapping ANY relay-reply / relay-forward whose options are well-formed: first Relay-Message option wins *)
+Lemma extract_any : forall hdr os inner rest, length hdr = 34%nat -> Forall opt6_ok os -> Forall (fun o => fst o <> 9) os ->
+  blen inner < 65536 -> extract_relay_message (hdr ++ enc6 os ++ opt6 9 inner ++ rest) = Some inner.
+Proof.
+  intros hdr os inner rest LH Hok Hn Hi. unfold extract_relay_message. rewrite skipn_exact by assumption. rewrite app_length, LH.
+  set (L := length (enc6 os ++ opt6 9 inner ++ rest)). destruct (Nat.ltb_spec (34 + L) 34); [lia|].
+  assert (Hl : (length os <= L)%nat).
+  { subst L. rewrite app_length. generalize (length (opt6 9 inner ++ rest)). clear. intros X. induction os as [|o q IH]; [cbn; lia|]. rewrite enc6_cons, app_length. unfold opt6.
+    rewrite !app_length. cbn [length put16]. lia. }
+  replace (S (34 + L)) with (length os + S (34 + L - length os))%nat by lia. apply extract_enc6; assumption.
+Qed.
